@@ -17,13 +17,13 @@
 (* SetCount never broadcasts, so a waiter stays parked although            *)
 (* arrived = count.                                                        *)
 (***************************************************************************)
-EXTENDS Integers, FiniteSets, TLC
+EXTENDS Integers, FiniteSets, TLC, GateOps
 
 CONSTANTS Waiters,            \* e.g. {1,2,3}
           Counts,             \* expected counts explored, e.g. {0,1,2,3,65535}
           Errs,               \* cancellation errors incl. "nil", e.g. {"nil","e1","e2"}
-          MaxOps,             \* bound on operator steps (exhaustive configs)
-          SetCountBroadcasts  \* BOOLEAN, see above
+          MaxOps              \* bound on operator steps (exhaustive configs)
+          \* (SetCountBroadcasts is declared in GateOps)
 
 VARIABLES g,      \* the latch record
           wst,    \* waiter -> "idle" | "parked" | "woken" | "done"
@@ -33,39 +33,8 @@ VARIABLES g,      \* the latch record
 
 vars == <<g, wst, wres, ops, last>>
 
-MaxU16 == 65535
 
 ----------------------------------------------------------------------------
-(* Pure latch operators: <<record', return value, broadcast>>              *)
-
-GNew(c) == [count |-> c, arrived |-> 0, canceled |-> FALSE, err |-> "nil"]
-
-GCond(r) == r.arrived = r.count \/ r.canceled
-
-\* what AwaitGateCondition returns once GCond holds
-GOutcome(r) == IF r.canceled
-               THEN (IF r.err = "nil" THEN "ErrGateCanceled" ELSE r.err)
-               ELSE "ok"
-
-GRegister(r, n) == <<[r EXCEPT !.count = @ + n], "void", FALSE>>
-
-GSetCount(r, n) ==
-    IF n < r.arrived
-    THEN <<r, "ErrGateIntegrity", FALSE>>
-    ELSE <<[r EXCEPT !.count = n], "ok", SetCountBroadcasts /\ r.arrived = n>>
-
-GReset(r) == <<IF r.canceled THEN r ELSE [r EXCEPT !.arrived = 0], "void", FALSE>>
-
-GWalk(r) ==
-    IF r.arrived = r.count
-    THEN <<r, "ErrGateIntegrity", FALSE>>
-    ELSE LET r2 == [r EXCEPT !.arrived = @ + 1]
-         IN  <<r2, "ok", r2.arrived = r2.count>>
-
-GCancel(r, e) == <<[r EXCEPT !.canceled = TRUE, !.err = e], "void", TRUE>>
-
-GClear(r) == <<[r EXCEPT !.canceled = FALSE, !.arrived = 0, !.err = "nil"], "void", FALSE>>
-
 ----------------------------------------------------------------------------
 (* Standalone specification with waiter processes                          *)
 
